@@ -249,6 +249,14 @@ func runC13(c *Check) {
 	c.Doc("C13-R12", "CS: no package-level variable of the repository's packages is written after initialisation (store, element store, map update), and none holds a stateful object (interface value other than error, pointer to another module's type, not built by a constructor known to be safe for concurrent use) on which methods are invoked at run time: package-level state is shared by every worker loop and library goroutine.")
 	ruleNoSharedPackageState(c, "C13-R12", []*Prog{p, c.Mod(ModSingle), c.Mod(ModDA), c.Mod(ModTestapp), c.Mod(ModBased)})
 	c.MinInstances("C13-R12", 20)
+	{
+		var rfs []*ssa.Function
+		for _, r := range distinct {
+			rfs = append(rfs, r.fn)
+		}
+		ruleMetricsPreBound(c, p, "C13-R13", rfs, depth)
+		c.MinInstances("C13-R13", 9)
+	}
 }
 
 // blockingOp classifies node n. kind == "" if it is not a blocking operation.
